@@ -58,6 +58,16 @@ func ruleDET1(c *Ctx) {
 					fn := calleeFunc(info, x)
 					switch fullName(fn) {
 					case "maps.Keys", "maps.Values", "maps.All", "reflect.Value.MapKeys", "reflect.Value.MapRange", "sync.Map.Range":
+						// slices.Sorted(maps.Keys(m)): the iterator is consumed by a total sort
+						if pc, ok := parents(fd)[x].(*ast.CallExpr); ok && len(pc.Args) >= 1 && pc.Args[0] == ast.Expr(x) {
+							switch pf := fullName(calleeFunc(info, pc)); pf {
+							case "slices.Sorted":
+								if fullName(fn) == "maps.Keys" { // keys are distinct: the sorted order is unique
+									c.ok(rule, fmt.Sprintf("%s/call(%s)", funcKey(pk, fd), fullName(fn)), p.Pos(x.Pos()), "the keys are collected by slices.Sorted: ordered by the keys' natural order")
+									return true
+								}
+							}
+						}
 						c.bad(rule, fmt.Sprintf("%s/call(%s)", funcKey(pk, fd), fullName(fn)), p.Pos(x.Pos()),
 							"iterates a map in runtime order through %s; no accepted ordering idiom is known for this form", fullName(fn))
 					}
@@ -210,6 +220,10 @@ func orderingUse(c *Ctx, info *types.Info, n ast.Node, target ast.Expr) (bool, s
 		if idx < len(call.Args) && sameExpr(call.Args[idx], target) {
 			return true, fmt.Sprintf("handed to the set-consumer %s (verified structurally)", shortName(fn))
 		}
+	}
+	// a sort wrapper of the module: its first statement sorts the parameter the slice is bound to
+	if idx, via := sortWrapperParam(c.Prog, fn, 0); idx >= 0 && idx < len(call.Args) && sameExpr(call.Args[idx], target) {
+		return true, fmt.Sprintf("%s(%s), which is %s on that parameter", shortName(fn), exprString(target), via)
 	}
 	return false, fmt.Sprintf("`%s` uses it in collection order", truncate(nodeText(n), 90))
 }
@@ -953,37 +967,38 @@ func checkPackageNameSource(c *Ctx, rule string) {
 func ruleEMIT1(c *Ctx, rule string) {
 	p := c.Prog
 	pk := p.Pkg("internal/codegen")
-	info := pk.TypesInfo
 	n := 0
-	for _, f := range pk.Syntax {
-		if isTestFile(p.Fset, f) {
-			continue
-		}
-		for _, d := range f.Decls {
-			fd, ok := d.(*ast.FuncDecl)
-			if !ok || fd.Body == nil {
-				continue
-			}
-			writes := findCalls(info, fd.Body, false, func(fn *types.Func, _ *ast.CallExpr) bool { return fullName(fn) == "os.WriteFile" })
-			if len(writes) == 0 {
-				continue
-			}
-			n++
-			g := p.CFG(pk, fd)
-			ok2 := true
-			inspectNoLit(fd.Body, func(m ast.Node) bool {
-				rs, isRet := m.(*ast.ReturnStmt)
-				if !isRet || len(rs.Results) != 1 || exprString(rs.Results[0]) == "false" {
-					return true
-				}
-				if !mustPassBefore(g, rs, func(nn ast.Node) bool { return containsNode(nn, writes[0]) }) {
-					ok2 = false
-				}
+	checkFn := func(fd *ast.FuncDecl, write *ast.CallExpr) {
+		g := p.CFG(pk, fd)
+		ok2 := true
+		inspectNoLit(fd.Body, func(m ast.Node) bool {
+			rs, isRet := m.(*ast.ReturnStmt)
+			if !isRet || len(rs.Results) != 1 || exprString(rs.Results[0]) == "false" {
 				return true
-			})
-			c.check(ok2, rule, funcKey(pk, fd)+"/writes-before-success", p.Pos(writes[0].Pos()),
-				"every path that reports success has rewritten the file (no freshness shortcut: stale output is never kept)",
-				"the stage can report success without rewriting its file: output left by an earlier run (possibly of another grammar) is kept")
+			}
+			// `return <the write>`: success is the write's own result
+			if ast.Unparen(rs.Results[0]) == ast.Expr(write) {
+				return true
+			}
+			if !mustPassBefore(g, rs, func(nn ast.Node) bool { return containsNode(nn, write) }) {
+				ok2 = false
+			}
+			return true
+		})
+		c.check(ok2, rule, funcKey(pk, fd)+"/writes-before-success", p.Pos(write.Pos()),
+			"every path that reports success has rewritten the file (no freshness shortcut: stale output is never kept)",
+			"the stage can report success without rewriting its file: output left by an earlier run (possibly of another grammar) is kept")
+	}
+	seenWrapper := map[*ast.FuncDecl]bool{}
+	for _, ws := range writeSites(p, pk) {
+		n++
+		checkFn(ws.fd, ws.call)
+		if ws.wrapper != nil && !seenWrapper[ws.wrapper] {
+			seenWrapper[ws.wrapper] = true
+			inner := findCalls(pk.TypesInfo, ws.wrapper.Body, false, func(fn *types.Func, _ *ast.CallExpr) bool { return fullName(fn) == "os.WriteFile" })
+			if len(inner) == 1 {
+				checkFn(ws.wrapper, inner[0])
+			}
 		}
 	}
 	if n < 3 {
@@ -1149,8 +1164,10 @@ func checkOverlay(c *Ctx, rule string) {
 	pk2, ep := p.FuncDecl("internal/codegen", "context.EmitParser")
 	var written *types.Const
 	if ep != nil {
-		for _, call := range findCalls(pk2.TypesInfo, ep.Body, false, func(fn *types.Func, _ *ast.CallExpr) bool { return fullName(fn) == "os.WriteFile" }) {
-			written = constReaching(pk2.TypesInfo, ep, call.Args[0])
+		for _, ws := range writeSites(p, pk2) {
+			if ws.fd == ep {
+				written = constReaching(pk2.TypesInfo, ep, ws.name)
+			}
 		}
 	}
 	if genConst == nil || written == nil {
@@ -1242,6 +1259,31 @@ func checkFileWrites(c *Ctx, rule string) {
 					c.bad(rule, construct, p.Pos(call.Pos()), "%s in the generator: output files must be produced by truncating whole-file writes of the three *.gen.go names only", full)
 					return true
 				}
+				// inside a write wrapper: its call sites are the writes, with the names they pass
+				if self, _ := info.Defs[fd.Name].(*types.Func); self != nil {
+					if _, isWrapper := writeWrappers(p, pk)[self]; isWrapper {
+						n--
+						for _, ws := range writeSites(p, pk) {
+							if ws.wrapper != fd {
+								continue
+							}
+							n++
+							wc := fmt.Sprintf("%s/file-write(%s)", funcKey(pk, ws.fd), shortName(self))
+							k := constReaching(info, ws.fd, ws.name)
+							if k == nil || !strings.HasSuffix(constStr(k), ".gen.go") {
+								c.bad(rule, wc, p.Pos(ws.call.Pos()), "file write whose name does not derive from one of the *.gen.go constants")
+								continue
+							}
+							if prev, dup := seenConst[k]; dup {
+								c.bad(rule, wc, p.Pos(ws.call.Pos()), "%s is also written by %s: the later write depends on earlier content/order", k.Name(), prev)
+								continue
+							}
+							seenConst[k] = funcKey(pk, ws.fd)
+							c.ok(rule, wc, p.Pos(ws.call.Pos()), "truncating whole-file write (through %s) of constant name %s = %s", shortName(self), k.Name(), k.Val())
+						}
+						return true
+					}
+				}
 				k := constReaching(info, fd, call.Args[0])
 				if k == nil || !strings.HasSuffix(constStr(k), ".gen.go") {
 					c.bad(rule, construct, p.Pos(call.Pos()), "os.WriteFile whose name does not derive from one of the *.gen.go constants")
@@ -1265,4 +1307,161 @@ func checkFileWrites(c *Ctx, rule string) {
 func constStr(k *types.Const) string {
 	s := k.Val().ExactString()
 	return strings.Trim(s, `"`)
+}
+
+// sortWrapperParam: fn is a function of the module whose body begins by sorting one of its own
+// parameters (directly or through another such wrapper). Returns the parameter index and the
+// underlying sort, or -1.
+func sortWrapperParam(p *Program, fn *types.Func, depth int) (int, string) {
+	if fn == nil || depth > 2 {
+		return -1, ""
+	}
+	fd := p.funcDecls[fn.Origin()]
+	if fd == nil || fd.Body == nil || len(fd.Body.List) == 0 || fn.Pkg() == nil {
+		return -1, ""
+	}
+	pk := p.ByID[fn.Pkg().Path()]
+	if pk == nil {
+		return -1, ""
+	}
+	info := pk.TypesInfo
+	es, ok := fd.Body.List[0].(*ast.ExprStmt)
+	if !ok {
+		return -1, ""
+	}
+	call, ok := es.X.(*ast.CallExpr)
+	if !ok || len(call.Args) == 0 {
+		return -1, ""
+	}
+	inner := calleeFunc(info, call)
+	argIdx, via := -1, ""
+	if sortFuncs[fullName(inner)] {
+		argIdx, via = 0, fullName(inner)
+		if len(call.Args) >= 2 {
+			via += " by " + truncate(exprString(call.Args[1]), 90)
+		}
+	} else if i, v := sortWrapperParam(p, inner, depth+1); i >= 0 {
+		argIdx, via = i, v
+	}
+	if argIdx < 0 || argIdx >= len(call.Args) {
+		return -1, ""
+	}
+	o := usesObj(info, call.Args[argIdx])
+	k := 0
+	for _, f := range fd.Type.Params.List {
+		for _, nm := range f.Names {
+			if info.Defs[nm] == o && o != nil {
+				return k, via
+			}
+			k++
+		}
+	}
+	return -1, ""
+}
+
+// ---- generated-file write sites ----
+
+// writeSite: a statement of function fd that writes a file: os.WriteFile itself, or a call to a
+// write wrapper of the package (a function that hands one of its parameters, joined to a
+// directory, to os.WriteFile, another parameter as the content, and reports success only after
+// the write).
+type writeSite struct {
+	pk      *packages.Package
+	fd      *ast.FuncDecl
+	call    *ast.CallExpr // os.WriteFile(...) or wrapper(...)
+	name    ast.Expr      // the path / file-name expression as fd sees it
+	data    ast.Expr
+	wrapper *ast.FuncDecl // nil for a direct write
+}
+
+// writeWrappers finds the write wrappers of pk: fn => (name parameter index, data parameter index).
+func writeWrappers(p *Program, pk *packages.Package) map[*types.Func][2]int {
+	out := map[*types.Func][2]int{}
+	info := pk.TypesInfo
+	for _, f := range pk.Syntax {
+		if isTestFile(p.Fset, f) {
+			continue
+		}
+		for _, d := range f.Decls {
+			fd, ok := d.(*ast.FuncDecl)
+			if !ok || fd.Body == nil {
+				continue
+			}
+			writes := findCalls(info, fd.Body, false, func(fn *types.Func, _ *ast.CallExpr) bool { return fullName(fn) == "os.WriteFile" })
+			if len(writes) != 1 || len(writes[0].Args) < 2 {
+				continue
+			}
+			paramIdx := func(e ast.Expr) int {
+				idx := -1
+				ast.Inspect(e, func(n ast.Node) bool {
+					if id, ok := n.(*ast.Ident); ok {
+						k := 0
+						for _, fl := range fd.Type.Params.List {
+							for _, nm := range fl.Names {
+								if info.Defs[nm] == info.Uses[id] && info.Uses[id] != nil {
+									idx = k
+								}
+								k++
+							}
+						}
+					}
+					return true
+				})
+				return idx
+			}
+			pathE := resolveLocal(info, fd, writes[0].Args[0])
+			ni, di := paramIdx(pathE), paramIdx(writes[0].Args[1])
+			if ni < 0 || di < 0 || ni == di {
+				continue
+			}
+			// the name parameter is the last element of a filepath.Join (or the path itself)
+			if jc, ok := ast.Unparen(pathE).(*ast.CallExpr); ok && fullName(calleeFunc(info, jc)) == "path/filepath.Join" {
+				if paramIdx(jc.Args[len(jc.Args)-1]) != ni {
+					continue
+				}
+			}
+			if fn, ok := info.Defs[fd.Name].(*types.Func); ok {
+				out[fn] = [2]int{ni, di}
+			}
+		}
+	}
+	return out
+}
+
+func writeSites(p *Program, pk *packages.Package) []writeSite {
+	info := pk.TypesInfo
+	wr := writeWrappers(p, pk)
+	var out []writeSite
+	for _, f := range pk.Syntax {
+		if isTestFile(p.Fset, f) {
+			continue
+		}
+		for _, d := range f.Decls {
+			fd, ok := d.(*ast.FuncDecl)
+			if !ok || fd.Body == nil {
+				continue
+			}
+			self, _ := info.Defs[fd.Name].(*types.Func)
+			ast.Inspect(fd.Body, func(n ast.Node) bool {
+				call, ok := n.(*ast.CallExpr)
+				if !ok {
+					return true
+				}
+				fn := calleeFunc(info, call)
+				if fullName(fn) == "os.WriteFile" && len(call.Args) >= 2 {
+					if _, isWrapper := wr[self]; !isWrapper {
+						out = append(out, writeSite{pk, fd, call, call.Args[0], call.Args[1], nil})
+					}
+					return true
+				}
+				if fn != nil {
+					if idx, ok := wr[fn.Origin()]; ok && idx[0] < len(call.Args) && idx[1] < len(call.Args) {
+						out = append(out, writeSite{pk, fd, call, call.Args[idx[0]], call.Args[idx[1]], p.funcDecls[fn.Origin()]})
+					}
+				}
+				return true
+			})
+		}
+	}
+	return out
 }
